@@ -9,7 +9,7 @@ use vibrato::trainer::Corpus;
 use crate::engine::{guard, pick, run_sub, Ctx, Opts, Report, Sub, Tier};
 use crate::gen::dict::DictParams;
 use crate::props::common::{build_case_dict, tok_case, TokCase, TokCaseParams};
-use crate::refmodel::{make_tokenizer, tokens_of};
+use crate::refmodel::{tokens_of};
 
 #[derive(Clone, Debug, Serialize, Deserialize, PartialEq, Eq, Hash)]
 pub struct CorpusCase {
@@ -208,7 +208,7 @@ impl Sub for TokenizerOutput {
         let files = case.spec.render();
         for o in &case.opts {
             let dict = build_case_dict(&files, case.user.as_deref(), None, false)?;
-            let tokenizer = make_tokenizer(dict, o.ignore_space, o.max_grouping_len)?;
+            let tokenizer = crate::refmodel::make_tokenizer_h(dict, o.ignore_space, o.max_grouping_len, o.history)?;
             let mut w = tokenizer.new_worker();
             let mut out = String::new();
             let mut expect: Vec<Vec<(String, String)>> = vec![];
